@@ -5,8 +5,18 @@
    move, corridor ghosts repeat their action, the others pick a non-backtracking neighbour seen free -- a superset of
    the distance-argmin set jax.random.choice samples from; the harness checks valid_draw on every implementation step).
    The maze-specific obligation "every permitted ghost draw leads to a free cell" is the decidable maze_ok_b, evaluated
-   on the constant 31x28 maze by vm_compute (default_maze_ok); the theorems hold for ANY maze passing it. *)
-Require Import JV.Base.Prelude JV.Base.JaxIndex JV.Base.Codec JV.Base.TimeStep JV.Gen.PacManConsts JV.Model.PacMan JV.Proofs.PacMan JV.Proofs.PacMan_Inv JV.Proofs.PacMan_Rules.
+   on the constant 31x28 maze by vm_compute (default_maze_ok); the theorems hold for ANY maze passing it.
+   Under the EXACT ghost behaviour (Model/PacManGhost.v: exact_draw = the set ghost_move can really return -- waiting: 4,
+   corridor: previous action, otherwise the distance-argmin among the non-backtracking free neighbours; checked against
+   the implementation in both directions by the harness) the same holds, because the exact set is contained in the
+   permitted one: C07_PacMan_exact_draw_is_permitted, C07_PacMan_step_preserves_exact, C07_PacMan_ghosts_on_free_cells
+   (every ghost stays inside the grid on a free cell along every run), and the exact set is never empty
+   (C07_PacMan_exact_draw_exists: the statement is not vacuous at any state).
+   Conserved quantities: the pellet counter always equals the number of pellets left on the map (pellets_ok_b: counter =
+   number of live entries, live entries pairwise distinct), and  score + 10 * pellets + 50 * power-ups left + 200 * ghosts
+   still edible  is constant along every run -- for EVERY action and EVERY ghost draw (permitted or not):
+   C07_PacMan_counters_preserved / C07_PacMan_counters_run (invariant Book; proofs in Proofs/PacMan_Book.v). *)
+Require Import JV.Base.Prelude JV.Base.JaxIndex JV.Base.Codec JV.Base.TimeStep JV.Gen.PacManConsts JV.Model.PacMan JV.Proofs.PacMan JV.Model.PacManGhost JV.Proofs.PacMan_Inv JV.Proofs.PacMan_Rules JV.Proofs.PacMan_Book JV.Proofs.PacMan_Ghost.
 Theorem C07_PacMan_step_preserves xs ys T s a d :
   Inv xs ys s -> valid_draw s d = true -> Inv xs ys (fst (step xs ys T s a d)).
 Proof. exact (step_Inv xs ys T s a d). Qed.
@@ -25,12 +35,45 @@ Theorem C07_PacMan_physical xs ys s :
 Proof. exact (Inv_physical xs ys s). Qed.
 Theorem C07_PacMan_default_maze_ok : maze_ok_b X_SIZE Y_SIZE MAZE = true.
 Proof. exact default_maze_ok. Qed.
+Theorem C07_PacMan_counters_preserved xs ys T s a d :
+  Book xs ys s ->
+  let s' := fst (step xs ys T s a d) in
+  Book xs ys s' /\ pellets_ok_b s' = true /\ pellets s' = zlen (live (pellet_locs s')) /\ potential s' = potential s.
+Proof. exact (step_counters xs ys T s a d). Qed.
+Print Assumptions C07_PacMan_counters_preserved.
+Theorem C07_PacMan_counters_run xs ys T acts s :
+  Book xs ys s -> Book xs ys (run xs ys T s acts) /\ potential (run xs ys T s acts) = potential s.
+Proof. exact (run_Book xs ys T acts s). Qed.
+Theorem C07_PacMan_counters_at_reset : Book X_SIZE Y_SIZE (gen_state DEFAULT_MAZE_ASCII).
+Proof. exact default_reset_Book. Qed.
+Theorem C07_PacMan_Inv_gives_Book xs ys s :
+  Inv xs ys s -> pellets_ok_b s = true -> nodup_b (live (pu_locs s)) = true -> Book xs ys s.
+Proof. exact (Inv_Book xs ys s). Qed.
+Theorem C07_PacMan_exact_draw_is_permitted xs ys s a d : exact_draw xs ys s a d = true -> valid_draw s d = true.
+Proof. exact (exact_draw_valid xs ys s a d). Qed.
+Print Assumptions C07_PacMan_exact_draw_is_permitted.
+Theorem C07_PacMan_step_preserves_exact xs ys T s a d :
+  Inv xs ys s -> exact_draw xs ys s a d = true -> Inv xs ys (fst (step xs ys T s a d)).
+Proof. exact (step_Inv_exact xs ys T s a d). Qed.
+Theorem C07_PacMan_ghosts_on_free_cells xs ys T acts s :
+  Inv xs ys s -> draws_exact_run xs ys T s acts ->
+  let f := run xs ys T s acts in
+  Inv xs ys f /\
+  forall i, 0 <= i < 4 ->
+    0 <= snd (gpos (ghosts f) i) < xs /\ 0 <= fst (gpos (ghosts f) i) < ys
+    /\ gat 0 (grid f) (snd (gpos (ghosts f) i)) (fst (gpos (ghosts f) i)) = 1.
+Proof. exact (ghosts_on_free_cells xs ys T acts s). Qed.
+Print Assumptions C07_PacMan_ghosts_on_free_cells.
+Theorem C07_PacMan_exact_draw_exists xs ys s a : exists d, exact_draw xs ys s a d = true.
+Proof. exact (exact_draw_exists xs ys s a). Qed.
+Print Assumptions C07_PacMan_exact_draw_exists.
 (* non-vacuity: a reachable state with moving ghosts (three steps, ghost 0 released and walking) satisfies Inv and the draws were permitted *)
 Example C07_PacMan_nonvacuous :
   let s0 := gen_state DEFAULT_MAZE_ASCII in
   let s1 := fst (step 31 28 9 s0 1 [4; 4; 4; 4]) in
   let s2 := fst (step 31 28 9 s1 1 [4; 4; 4; 4]) in
   valid_draw s0 [4; 4; 4; 4] = true /\ valid_draw s1 [4; 4; 4; 4] = true /\ valid_draw s2 [0; 4; 4; 4] = true
+  /\ exact_draw 31 28 s2 1 [0; 4; 4; 4] = true /\ exact_draw 31 28 s2 1 [2; 4; 4; 4] = false /\ valid_draw s2 [2; 4; 4; 4] = true
   /\ Inv_b 31 28 (fst (step 31 28 9 s2 1 [0; 4; 4; 4])) = true
   /\ gpos (ghosts (fst (step 31 28 9 s2 1 [0; 4; 4; 4]))) 0 = (12, 13).
 Proof. vm_compute. repeat split; reflexivity. Qed.
